@@ -361,23 +361,19 @@ Definition to_json (rep : bool) (verbose : nat) (tree : list entry) : option jv 
 (* repetition_change (report_repetition=True)                          *)
 (* ------------------------------------------------------------------ *)
 (* additional['repetition'] of a repetition_change level is not part of [entry];
-   the ignore-order model returns it beside the entries as
+   the ignore-order model returns it beside the entries, one record per
+   repetition_change level and in the order of these levels, as
    (path of the level, old_indexes, new_indexes).  TextResult files
    {old_repeat, new_repeat, old_indexes, new_indexes, value = t1} under the path. *)
 Definition repinfo3 := (path * list nat * list nat)%type.
 Record trep := mkTRep { trpath : pystr; trold : list nat; trnew : list nat; trval : value }.
 
-Definition rep_lookup (p : path) (rs : list repinfo3) : list nat * list nat :=
-  match find (fun r => path_eqb (fst (fst r)) p) rs with
-  | Some r => (snd (fst r), snd r)
-  | None => ([], [])
-  end.
+(* [rs]: the records of the repetition_change levels in the order of the levels
+   (each record is stored ON its level: additional['repetition']) *)
+Definition is_rep (e : entry) : bool := rkind_eqb (ekind e) KRepetition.
 Definition rep_view (es : list entry) (rs : list repinfo3) : list trep :=
-  flat_map (fun e =>
-    match ekind e with
-    | KRepetition => [mkTRep (render (ep1 e)) (fst (rep_lookup (ep1 e) rs)) (snd (rep_lookup (ep1 e) rs)) (opt_val (et1 e))]
-    | _ => []
-    end) es.
+  map (fun er => mkTRep (render (ep1 (fst er))) (snd (fst (snd er))) (snd (snd er)) (opt_val (et1 (fst er))))
+      (combine (filter is_rep es) rs).
 
 Definition jnat (n : nat) : jv := JInt (Z.of_nat n).
 Definition rep_entry_json (t : trep) : option jv :=
